@@ -118,6 +118,9 @@ def run(chk: Check, ctx: Any) -> None:
     chk.rule("C04-R3", "printed numerals are INTEGER/DECIMAL tokens; floats are not printed with str()/repr()")
     chk.rule("C04-R4", "every SsbOpParam member has __str__ and is constructed by both compilers; containers given to parameter objects are not reused")
     chk.rule("C04-R5", "INTEGER tokens -> int(text, 0); parts of DECIMAL tokens -> int(text) (base 10)")
+    chk.rule("C04-R7", "print -> parse identity with printers and readers interpreted: each value of a table built from the character classes the printers distinguish "
+                       "(both quotes, line breaks at either end, blank lines, leading/trailing blanks, both triple-quote sequences, comment openers) is printed as "
+                       "operation argument, menu case and message-switch text at several depths, and the printed text is compiled back (grammar parse + interpreted handlers)")
     chk.rule("C04-R6", "multi-line printer: the same indentation prefix on every line, unconditionally")
 
     dt = repo.mod(DT)
@@ -354,3 +357,118 @@ def run(chk: Check, ctx: Any) -> None:
     rm = repo.func(f"{UTILS}:multiline_string_literal")
     mins = [c for c in walk_no_nested(rm.node) if isinstance(c, ast.Call) and dotted(c.func) == "min"]
     chk.decide("C04-R6", "multiline:reader-min-indent", len(mins) == 1, rm, "the reader does not dedent by the least indentation of the lines", "reader dedents by the least indentation")
+    print_parse_rule(chk, ctx, "C04-R7")
+
+
+# --------------------------------------------------------------------------- R7: print -> parse identity, printers and readers interpreted
+
+STRING_VALUES = [
+    "plain", "it's", 'say "hi"', "both ' and \"", "line1\nline2", "trail\n", "\nlead", "a\n\nb", "  indented\n    more", " x\n y", "a\n  b", "  a\nb", "a \n b ",
+    " lead", "trail ", "  ", "", "C:\\dir", "tab\there", "é✓", "three ''' single", 'three """ double', "both ''' and \"\"\"", "both '''\nand \"\"\"\nlines",
+    "x\n'''\ny", "a\n\n", "\n", "\n\n", "a\n   ", "100%", "{brace}", "semi; colon", "// not a comment", "/* nor this */", "a\n// line\nb",
+]
+MARK_NAMES = ["m", "it's", 'say "hi"', "a\nb", "with, comma", "a > b", ""]
+
+
+def print_parse_rule(chk: Check, ctx: Any, rule: str, kinds: tuple[str, ...] | None = None) -> None:
+    from ..engine.absint import AObj, PyExc, Unsupported
+    from ..engine.sta import SpecError, WholeCompiler
+    repo = ctx.repo
+    wc = WholeCompiler(repo, ctx.fold, ctx.grammar_exps)
+    I = wc.I
+    fc = repo.find_class
+    anchor = repo.func(f"{DT}:repr_string")
+    n = 0
+
+    def value_of(p: Any) -> Any:
+        if isinstance(p, AObj):
+            c = p.cls.name
+            a = p.attrs
+            if c == "SsbOpParamConstString":
+                return ("str", a.get("name"))
+            if c == "SsbOpParamConstant":
+                return ("const", a.get("name"))
+            if c == "SsbOpParamLanguageString":
+                return ("lang", tuple(a.get("strings", {}).items()))
+            if c == "SsbOpParamFixedPoint":
+                return ("fixed", a.get("value"))
+            if c == "SsbOpParamPositionMarker":
+                return ("pos", a.get("name"), a.get("x_offset"), a.get("y_offset"), a.get("x_relative"), a.get("y_relative"))
+            return (c,)
+        return ("int", p)
+
+    def pad(d: int) -> str:
+        return "    " * d
+
+    def wrap(d: int, stmt: str) -> str:
+        """A routine whose statement sits at nesting depth d (depth 1 = directly in the routine), as the decompiler lays it out."""
+        out = "def 0 {\n"
+        for k in range(1, d):
+            out += pad(k) + "forever {\n"
+        out += pad(d) + stmt + "\n"
+        for k in range(d - 1, 0, -1):
+            out += pad(k) + "}\n"
+        return out + "}\n"
+
+    def check(kind: str, mk: Any, contexts: list[str], depths: list[int], label: str) -> None:
+        nonlocal n
+        if kinds is not None and kind not in kinds:
+            return
+        for cx in contexts:
+            for d in depths:
+                n += 1
+                key = f"roundtrip:{kind}:{label!r}:{cx}:depth{d}"
+                try:
+                    obj = mk()
+                    if isinstance(obj, AObj) and "indent" in obj.attrs:
+                        obj.attrs["indent"] = d
+                    text = I.str_(obj) if isinstance(obj, AObj) else str(obj)
+                    if cx == "arg":
+                        prog, pick = wrap(d, f"foo({text});"), (0, 0)
+                    elif cx == "menu":
+                        prog, pick = wrap(d, f"switch (message_Menu(1)) {{ case menu({text}): x(); }}"), (1, 0)
+                    else:
+                        prog, pick = wrap(d, f"message_SwitchTalk ($V) {{ case 1: {text} }}"), (1, 1)
+                    res = wc.compile(prog, "$PERF")
+                    op = res["routine_ops"][0][pick[0]]
+                    back = op.attrs["params"][pick[1]]
+                    ok = value_of(back) == value_of(obj)
+                    chk.decide(rule, key, ok, anchor,
+                               f"{kind} {label!r} printed at depth {d} as {cx} is {text!r}; compiling that text gives {value_of(back)!r} instead of {value_of(obj)!r}",
+                               "compiles back to the same value")
+                except SpecError:
+                    chk.violation(rule, key, anchor, f"{kind} {label!r} printed at depth {d} as {cx} is {text!r}, which the grammar does not accept in that place")
+                except PyExc as e:
+                    chk.violation(rule, key, anchor, f"{kind} {label!r} printed at depth {d} as {cx} is {text!r}; compiling it fails: {e.cls_name}: {e.msg}")
+                except (Unsupported, AnalysisError) as e:
+                    chk.unknown(rule, key, anchor, f"{kind} {label!r} ({cx}, depth {d}): abstract interpretation left the modelled subset: {e}")
+
+    S = fc("SsbOpParamConstString")
+    L = fc("SsbOpParamLanguageString")
+    M = fc("SsbOpParamPositionMarker")
+    F = fc("SsbOpParamFixedPoint")
+    C = fc("SsbOpParamConstant")
+    thorough = getattr(ctx, "tier", "quick") == "thorough"
+    for v in STRING_VALUES:
+        check("string", lambda v=v: I.new(S, v), ["arg"], [0, 1, 2, 3, 4, 6] if thorough else [0, 1, 3], v)
+        check("string", lambda v=v: I.new(S, v), ["menu", "text"], [1, 2, 3, 5] if thorough else [2], v)
+    for v in STRING_VALUES[:16] + ["a\n\nb", "both '''\nand \"\"\"\nlines"]:
+        check("language string", lambda v=v: I.new(L, {"english": v, "german": "zwei\nZeilen", "french": v + "!"}), ["arg", "text"], [1, 3], v)
+    for nm in MARK_NAMES:
+        for xo, yo, xr, yr in ((0, 0, 1, 2), (2, 0, 10, 0), (0, 2, 0, 33), (2, 2, 255, 255), (2, 0, -3, 12), (0, 2, -1, -7)):
+            check("position mark", lambda nm=nm, xo=xo, yo=yo, xr=xr, yr=yr: I.new(M, nm, xo, yo, xr, yr), ["arg"], [1], f"{nm}@{xr}+{xo},{yr}+{yo}")
+    for whole, fract in ((0, "5"), (1, "50"), (12, "0"), (-3, "25"), (0, "0"), (7, "007"), (-120, "5")):
+        check("fixed point", lambda whole=whole, fract=fract: I.new(F, whole, fract), ["arg"], [1], f"{whole}.{fract}")
+    check("fixed point", lambda: I.new(F, ClassValOf(repo, "SsbOpParamFixedPoint", "NegativeZero"), "5"), ["arg"], [1], "-0.5")
+    for i in (0, 1, -1, 255, -32768, 65535, 1000000):
+        check("integer", lambda i=i: i, ["arg"], [1], str(i))
+    for c in ("CONST_X", "$VAR", "$S_1", "lower_case"):
+        check("constant", lambda c=c: I.new(C, c), ["arg"], [1], c)
+    chk.floor(rule, "parameter values printed and compiled back abstractly", n, 250 if kinds is None else 20)
+
+
+def ClassValOf(repo: Any, outer: str, inner: str) -> Any:
+    from ..engine.absint import ClassVal, Interp
+    from ..engine.consts import Folder
+    I = Interp(repo, Folder(repo))
+    return I.getattr_(ClassVal(repo.find_class(outer)), inner)
